@@ -6,7 +6,7 @@ export CARGO_NET_OFFLINE=true
 mkdir -p .cache evidence replays
 (cd lean && lake build)
 cp -n /repo/Cargo.lock harness/Cargo.lock 2>/dev/null || true
-for f in ring aws nocrypto; do
+for f in ring aws nocrypto both; do
   (cd harness && CARGO_TARGET_DIR=../.cache/target-$f cargo build --offline --features $f) || echo "setup: harness build for $f failed (checks will retry)"
 done
 (cd /repo && CARGO_TARGET_DIR=/verif/.cache/target-cli-ring cargo build --offline -p rustls-cert-gen) >/dev/null 2>&1 || true
